@@ -870,6 +870,7 @@ def mapC (ρ : Nat → Nat) (t : Schema) (c : Ctx) : Ctx := { c with s := t, q :
 
 theorem renderField_mapC (ρ : Nat → Nat) (t : Schema) (c : Ctx) : renderField (mapC ρ t c) = renderField c := rfl
 theorem renderType_mapC (ρ : Nat → Nat) (t : Schema) (c : Ctx) : renderType (mapC ρ t c) = renderType c := rfl
+theorem aliasMember_mapC (ρ : Nat → Nat) (t : Schema) (c : Ctx) : aliasMember (mapC ρ t c) = aliasMember c := rfl
 
 theorem mapSels_single (ρ : Nat → Nat) (sub : List Sel) (g : Nat) : mapSels ρ sub = [Sel.spread g] ↔ sub = [Sel.spread g] := by
   cases sub with
@@ -952,7 +953,7 @@ theorem istep2 (f : Nat) (H2 : I2 (ρ := ρ) (t := t) c f) (H3 : I3 (ρ := ρ) (
   | nil => rw [calcVariants.eq_2 _ _ _ _ _ (by omega), calcVariants.eq_2 _ _ _ _ _ (by omega)]
   | cons vt rest =>
     rw [calcVariants.eq_3, calcVariants.eq_3]
-    simp only [mapC_s, mapC_q, h.typeName, filter_mapVSel, H2 _ _ vsels rest, renderType_mapC]
+    simp only [mapC_s, mapC_q, h.typeName, filter_mapVSel, H2 _ _ vsels rest, renderType_mapC, aliasMember_mapC]
     cases c.s.typeName vt with
     | error e => rfl
     | ok vname =>
